@@ -4,7 +4,8 @@ package main
 // Case line:   o:<v> ; u:<v> ; s ; p ; k ; c ; x ; n:<k> ; z     (Offer, Unshift, Shift, Pop, Peek, Count,
 // Clear, KeepNodePoolCount(k), ClearNodePool).  Poll/Take/Shift and Offer/Put/Push are the same code path
 // (one-line delegations), exercised by the aliases P (Poll), T (Take), O (Put), H (Push).
-// Observation: one token per op joined by " | ":  nil | ok <v> | empty | n <count> | panic
+// `N` reads the node-pool bookkeeping through the verif accessor: `pool <nodeCount> <length of the free list>`.
+// Observation: one token per op joined by " | ":  nil | ok <v> | empty | n <count> | pool <c> <w> | panic
 
 import (
 	"math/rand"
@@ -15,7 +16,11 @@ import (
 	fpgo "github.com/TeaEntityLab/fpGo/v2"
 )
 
-var c06Alphabet = []string{"o", "u", "s", "p", "k", "c", "x", "n:0", "n:1", "n:2", "z"}
+var c06CoreAlphabet = []string{"o", "u", "s", "p", "x", "n:1", "z", "H"}
+
+const c06WalkLimit = 1 << 20
+
+var c06Alphabet = []string{"o", "u", "s", "p", "k", "c", "x", "n:0", "n:1", "n:2", "n:3", "z"}
 
 func c06RunTok(q *fpgo.LinkedListQueue[int], tok string) (out string) {
 	defer func() {
@@ -23,27 +28,38 @@ func c06RunTok(q *fpgo.LinkedListQueue[int], tok string) (out string) {
 			out = "panic"
 		}
 	}()
-	show := func(v int, err error) string {
+	showE := func(v int, err error, want error) string {
 		if err != nil {
-			if err == fpgo.ErrQueueIsEmpty || err == fpgo.ErrStackIsEmpty {
+			if err == want {
 				return "empty"
 			}
 			return "err-other"
 		}
 		return "ok " + strconv.Itoa(v)
 	}
+	show := func(v int, err error) string { return showE(v, err, fpgo.ErrQueueIsEmpty) }
 	arg := func() int { v, _ := strconv.Atoi(tok[2:]); return v }
+	// the same object viewed through the two interfaces it implements
+	var asQueue fpgo.Queue[int] = q
+	var asStack fpgo.Stack[int] = q
 	switch {
 	case tok == "s":
 		return show(q.Shift())
 	case tok == "P":
-		return show(q.Poll())
+		return show(asQueue.Poll())
 	case tok == "T":
-		return show(q.Take())
+		return show(asQueue.Take())
 	case tok == "p":
-		return show(q.Pop())
+		v, err := asStack.Pop()
+		return showE(v, err, fpgo.ErrStackIsEmpty)
 	case tok == "k":
 		return show(q.Peek())
+	case tok == "N":
+		c, w := q.VerifNodeCount(c06WalkLimit)
+		if w >= c06WalkLimit {
+			return "pool " + strconv.Itoa(c) + " cycle"
+		}
+		return "pool " + strconv.Itoa(c) + " " + strconv.Itoa(w)
 	case tok == "c":
 		return "n " + strconv.Itoa(q.Count())
 	case tok == "x":
@@ -61,12 +77,12 @@ func c06RunTok(q *fpgo.LinkedListQueue[int], tok string) (out string) {
 		}
 		return "nil"
 	case strings.HasPrefix(tok, "O:"):
-		if q.Put(arg()) != nil {
+		if asQueue.Put(arg()) != nil {
 			return "err-other"
 		}
 		return "nil"
 	case strings.HasPrefix(tok, "H:"):
-		if q.Push(arg()) != nil {
+		if asStack.Push(arg()) != nil {
 			return "err-other"
 		}
 		return "nil"
@@ -94,31 +110,62 @@ func c06Run(line string) string {
 	return strings.Join(outs, " | ")
 }
 
+// c06Concrete turns op letters into tokens; the k-th insertion inserts k (so every stored value is distinct
+// and a wrong/duplicated/lost element is visible).
 func c06Concrete(prefix []string) string {
 	toks := make([]string, len(prefix))
 	v := 0
 	for i, t := range prefix {
-		if t == "o" || t == "u" {
+		switch t {
+		case "o", "u", "O", "H":
 			v++
 			toks[i] = t + ":" + strconv.Itoa(v)
-		} else {
+		default:
 			toks[i] = t
 		}
 	}
 	return strings.Join(toks, " ; ")
 }
 
+// drains appended to every bounded-exhaustive history: they read back the whole state the history left
+// behind (bookkeeping, count, every element from both ends, reuse of recycled nodes).
+var c06Drains = []string{
+	"N ; c ; k ; s ; p ; s ; p ; s ; p ; N",
+	"N ; c ; p ; s ; u:91 ; o:92 ; x ; N ; o:93 ; u:94 ; N ; p ; p ; s ; N",
+}
+
+var c06Directed = []string{
+	// the two manifestations of the repaired defect (e2a196c)
+	"o:1 ; o:2 ; s ; p ; s",
+	"o:1 ; o:2 ; p ; u:3 ; x",
+	"o:1 ; o:2 ; o:3 ; s ; p ; u:4 ; x ; N ; o:5 ; o:6 ; s ; s ; s",
+	// empty-queue errors, both interfaces
+	"s ; P ; T ; p ; k ; c ; N",
+	// aliases
+	"O:1 ; H:2 ; o:3 ; u:0 ; P ; T ; s ; p ; c",
+	// pool maintenance with extreme arguments, interleaved with contents
+	"o:1 ; o:2 ; n:-1 ; N ; n:0 ; N ; n:1 ; N ; n:5 ; N ; s ; N ; p ; N ; n:2 ; N ; z ; N ; o:7 ; k ; c",
+	"n:-9223372036854775808 ; N ; n:3 ; N ; n:3 ; N ; n:2 ; N ; n:4 ; N ; o:1 ; N ; x ; N ; n:1 ; N",
+	"o:1 ; o:2 ; o:3 ; x ; N ; n:2 ; N ; o:4 ; o:5 ; o:6 ; N ; s ; s ; s ; s ; N",
+	"o:1 ; o:2 ; o:3 ; x ; z ; N ; o:4 ; o:5 ; n:7 ; N ; p ; p ; p ; N",
+	// extreme and repeated values
+	"o:0 ; o:0 ; u:-1 ; o:9223372036854775807 ; u:-9223372036854775808 ; s ; p ; s ; p ; s ; s",
+}
+
 func c06Gen(tier string, rng *rand.Rand, emit func(string)) map[string]interface{} {
-	maxLen, nRandom, randLen := 5, 300, 200
+	maxLen, nRandom, randLen := 5, 400, 300
 	if tier == "thorough" {
-		maxLen, nRandom, randLen = 6, 3000, 400
+		maxLen, nRandom, randLen = 6, 4000, 600
+	}
+	for _, d := range c06Directed {
+		emit(d)
 	}
 	opCount := map[string]int{}
 	exhaustive := 0
 	var rec func(prefix []string)
 	rec = func(prefix []string) {
 		if len(prefix) > 0 {
-			emit(c06Concrete(prefix))
+			emit(c06Concrete(prefix) + " ; " + c06Drains[exhaustive%len(c06Drains)])
 			exhaustive++
 		}
 		if len(prefix) == maxLen {
@@ -129,40 +176,81 @@ func c06Gen(tier string, rng *rand.Rand, emit func(string)) map[string]interface
 		}
 	}
 	rec(nil)
+	// one level deeper over the operations that change the shape of the lists
+	deep := 0
+	var rec2 func(prefix []string)
+	rec2 = func(prefix []string) {
+		if len(prefix) == maxLen+1 {
+			emit(c06Concrete(prefix) + " ; " + c06Drains[deep%len(c06Drains)])
+			deep++
+			return
+		}
+		for _, a := range c06CoreAlphabet {
+			rec2(append(append([]string{}, prefix...), a))
+		}
+	}
+	rec2(nil)
 	// random long histories, biased to keep the queue non-empty and to mix head and tail removals
 	for i := 0; i < nRandom; i++ {
 		n := 1 + rng.Intn(randLen)
+		// each history has its own mix: insertion-heavy, removal-heavy, or maintenance-heavy
+		ins, rem, maint := 45, 30, 10
+		switch rng.Intn(4) {
+		case 1:
+			ins, rem = 32, 45
+		case 2:
+			ins, rem, maint = 35, 25, 30
+		}
+		distinct := rng.Intn(4) != 0
 		ops := make([]string, n)
+		v := 0
+		val := func() string {
+			v++
+			if distinct {
+				return strconv.Itoa(v)
+			}
+			switch rng.Intn(6) {
+			case 0:
+				return "0"
+			case 1:
+				return strconv.Itoa(-rng.Intn(5))
+			case 2:
+				return []string{"9223372036854775807", "-9223372036854775808"}[rng.Intn(2)]
+			}
+			return strconv.Itoa(rng.Intn(7))
+		}
 		for j := range ops {
 			r := rng.Intn(100)
 			switch {
-			case r < 28:
-				ops[j] = "o"
-			case r < 45:
-				ops[j] = "u"
-			case r < 60:
-				ops[j] = "s"
-			case r < 75:
-				ops[j] = "p"
-			case r < 80:
-				ops[j] = "k"
-			case r < 86:
-				ops[j] = "c"
-			case r < 89:
-				ops[j] = "x"
-			case r < 96:
-				ops[j] = "n:" + strconv.Itoa(rng.Intn(6))
+			case r < ins:
+				ops[j] = []string{"o", "o", "o", "u", "u", "O", "H"}[rng.Intn(7)] + ":" + val()
+			case r < ins+rem:
+				ops[j] = []string{"s", "s", "p", "p", "p", "P", "T"}[rng.Intn(7)]
+			case r < ins+rem+maint:
+				switch rng.Intn(8) {
+				case 0:
+					ops[j] = "z"
+				case 1:
+					ops[j] = "x"
+				case 2:
+					ops[j] = "n:" + strconv.Itoa(-rng.Intn(3))
+				case 3:
+					ops[j] = "n:" + strconv.Itoa(rng.Intn(40))
+				default:
+					ops[j] = "n:" + strconv.Itoa(rng.Intn(6))
+				}
 			default:
-				ops[j] = "z"
+				ops[j] = []string{"k", "c", "N", "N"}[rng.Intn(4)]
 			}
 			opCount[ops[j][:1]]++
 		}
-		emit(c06Concrete(ops))
+		emit(strings.Join(ops, " ; ") + " ; N ; c")
 	}
 	return map[string]interface{}{
-		"exhaustive": false, "exhaustive_prefix_scope": "all op sequences of length 1.." + strconv.Itoa(maxLen) + " over 11 ops",
-		"exhaustive_cases": exhaustive, "random_cases": nRandom, "random_max_len": randLen, "random_op_mix": opCount,
+		"exhaustive": false, "exhaustive_prefix_scope": "all op sequences of length 1.." + strconv.Itoa(maxLen) + " over 12 ops, each followed by a state-reading drain",
+		"exhaustive_cases": exhaustive, "deeper_scope": "all op sequences of length " + strconv.Itoa(maxLen+1) + " over the 8 shape-changing ops " + strings.Join(c06CoreAlphabet, ","),
+		"deeper_cases": deep, "directed_cases": len(c06Directed), "random_cases": nRandom, "random_max_len": randLen, "random_op_mix": opCount,
 	}
 }
 
-func init() { register("C06", &Prop{Gen: c06Gen, Run: c06Run, CaseTimeout: time.Second}) }
+func init() { register("C06", &Prop{Gen: c06Gen, Run: c06Run, CaseTimeout: 6 * time.Second}) }
